@@ -209,6 +209,24 @@ def run(ctx):
         cmds.append("dump"); exp.append(dbside.dump(db)); tags.append(("tables after GTF import", repr((lines, cfg.describe()))))
         if len(res.samples) < 2:
             res.sample({"lines": lines, "config": cfg.describe()})
+    # outside the property's domain, correspondence only: the exons of one transcript / gene disagree on strand or seqid.
+    # The derived feature then carries the strand and seqid of ONE exon - which one is sqlite's choice for bare columns
+    # next to MIN()/MAX() (modelled in Create.extent: first row in child-id order that attains MAX(end))
+    import gen_db as _g
+    for i in range(40 if not ctx.thorough else 400):
+        nex = r.choice([2, 2, 3, 4, 5, 11, 12])
+        ends = [r.choice([100, 200, 300]) for _ in range(nex)]
+        recs2 = [dict(ftype="exon", gene="G0", transcript="G0T%d" % r.randrange(2), start=r.randrange(1, 90), end=ends[j],
+                      seqid=r.choice(["chr1", "chr2"]), strand=r.choice("+-")) for j in range(nex)]
+        lines2 = _g.gtf_lines(recs2)
+        cfg2 = dbside.Cfg()
+        path2 = dbside.write_lines(os.path.join(ctx.scratch, "c03m.gtf"), lines2)
+        db2, rep2 = dbside.py_create(path2, cfg2)
+        res.evaluations += 1
+        res.count("mixed_strand_or_seqid")
+        cmds.append(dbside.cmd_create(lines2, cfg2)); exp.append(rep2); tags.append(("create_db (GTF, mixed strands)", repr(lines2)))
+        if db2 is not None:
+            cmds.append("dump"); exp.append(dbside.dump(db2)); tags.append(("tables after GTF import (mixed strands)", repr(lines2)))
     out = ctx.model(cmds)
     if out is not None:
         for c, m, e, (comp, inp) in zip(cmds, out, exp, tags):
